@@ -20,6 +20,8 @@ vars == <<fl, al, body, redef, phase, st>>
 T(k, n) == [k |-> k, n |-> n, a |-> <<>>, g |-> FALSE, s |-> ""]
 UseT(n, args) == [k |-> "use", n |-> n, a |-> args, g |-> FALSE, s |-> ""]
 DefT(n, v) == [k |-> "def", n |-> n, a |-> <<T("lit", v)>>, g |-> FALSE, s |-> v]
+Grp(toks) == [k |-> "grp", n |-> "", a |-> toks, g |-> FALSE, s |-> ""]
+CondT(kw, n, th, el) == [k |-> "cond", n |-> n, a |-> <<Grp(th), Grp(el)>>, g |-> FALSE, s |-> kw]
 Dflt(toks) == <<[src |-> "", toks |-> toks]>>
 
 FL == { <<>>,                                                    \* no formal list
@@ -41,7 +43,10 @@ AL == { <<>>,
 BodyAlpha == { T("lit", "k"), T("id", "x"), T("id", "y"), T("id", "z"), T("paste", ""),
                T("str", "\"x\""), UseT("N", <<>>), UseT("N1", << << <<T("id", "x")>> >> >>),
                [k |-> "bqs", n |-> "", a |-> <<T("lit", "s "), T("id", "x"), T("lit", " e")>>, g |-> FALSE, s |-> ""],
-               T("cont", ""), T("undef", "N"), DefT("N", "n3") }
+               T("cont", ""), T("undef", "N"), DefT("N", "n3"),
+               \* conditionals inside the body: on a macro that the body itself may undefine / redefine, and on a formal's name
+               CondT("ifdef", "N", <<T("lit", "c1"), T("id", "x")>>, <<T("lit", "c2")>>),
+               CondT("ifndef", "N", <<UseT("N1", << << <<T("id", "y")>> >> >>)>>, <<UseT("N", <<>>)>>) }
 
 \* `` only between two plain tokens (what the generators are restricted to, Appendix A.4)
 Pastable(t) == t.k \in {"lit", "id"}
@@ -52,7 +57,7 @@ Pastable(t) == t.k \in {"lit", "id"}
 CanAppend(b, t) ==
   IF b = <<>> THEN t.k # "paste"
   ELSE IF Last(b).k = "def" THEN t.k = "cont"            \* a `define inside a body ends its line
-  ELSE IF Last(b).k \in {"str", "bqs"} /\ t.k = "use" THEN FALSE
+  ELSE IF Last(b).k \in {"str", "bqs"} /\ t.k \in {"use", "cond"} THEN FALSE
   ELSE IF t.k = "paste" THEN Pastable(Last(b))
   ELSE IF Last(b).k = "paste" THEN Pastable(t) ELSE TRUE
 Complete(b) == IF b = <<>> THEN TRUE ELSE Last(b).k # "paste"
@@ -63,7 +68,11 @@ NeedsSimple(b) == \E i \in 1..Len(b) : b[i].k \in {"bqs", "paste"}
 \* a body that ends in an argument-less usage, in a macro without formals used WITH an argument list: the restored
 \* list would be read as the arguments of that trailing usage (the abstract items and the concrete text differ)
 TrailingUseGetsList(f, a, b) == f = <<>> /\ a # <<>> /\ b # <<>> /\ ((Last(b).k = "use" /\ Last(b).a = <<>>) \/ Last(b).k = "def")   \* (or of a trailing `define's body)
-Allowed(a, b) == (NeedsSimple(b) => SimpleActuals(a)) /\ ~TrailingUseGetsList(fl, a, b)
+\* a conditional directive that ends up directly behind a string literal (a formal bound to a string actual) is known
+\* finding D2 territory again (directives after a string are emitted twice), decided by PpLex / C06
+HasCond(b) == \E i \in 1..Len(b) : b[i].k = "cond"
+HasStrActual(a) == a # <<>> /\ \E i \in 1..Len(a[1]) : \E j \in 1..Len(a[1][i]) : a[1][i][j].k = "str"
+Allowed(a, b) == (NeedsSimple(b) => SimpleActuals(a)) /\ ~TrailingUseGetsList(fl, a, b) /\ ~(HasCond(b) /\ HasStrActual(a))
 
 MkItem(k, n) == [k |-> k, n |-> n, a |-> <<>>, b |-> <<>>, f |-> 0, ts |-> <<>>, to |-> <<>>, off |-> 0, ln |-> 0, ln2 |-> 0, g |-> FALSE]
 DefItem(n, formals, hasf, toks) == [MkItem("def", n) EXCEPT !.a = formals, !.f = hasf, !.b = <<[src |-> "", toks |-> toks, boff |-> 0]>>]
@@ -121,6 +130,10 @@ Rescan(ts, defs, depth) ==
        LET e == [n |-> h.n, none |-> FALSE, f |-> 0, a |-> <<>>, b |-> <<[src |-> h.s, toks |-> h.a, boff |-> 0]>>, file |-> "?", off |-> 0]
            r == Rescan(Tail(ts), DefSet(defs, e), depth) IN
        IF ~r.ok THEN r ELSE ROk(<<[t |-> "`", g |-> FALSE], [t |-> "define", g |-> FALSE], [t |-> h.n, g |-> FALSE]>> \o [i \in 1..Len(h.a) |-> [t |-> h.a[i].n, g |-> FALSE]] \o r.toks, r.defs)
+  ELSE IF h.k = "cond" THEN
+       \* 22.6: the branch is chosen by the define table at this point of the rescan
+       LET live == IF (DefIdx(defs, h.n) # 0) = (h.s = "ifdef") THEN h.a[1].a ELSE h.a[2].a
+       IN Rescan(live \o Tail(ts), defs, depth)
   ELSE IF h.k = "undef" THEN
        LET r == Rescan(Tail(ts), DefDel(defs, h.n), depth) IN
        IF ~r.ok THEN r ELSE ROk(<<[t |-> "`", g |-> FALSE], [t |-> "undef", g |-> FALSE], [t |-> h.n, g |-> FALSE]>> \o r.toks, r.defs)
